@@ -161,7 +161,7 @@ DateTimeDec(b) ==
            ms == LastK(l.time, 4) IN
        IF ValidDate(y, md \div 100, md % 100) /\ ValidTime(hh, ms \div 100, ms % 100)
        THEN EOk(<<y, md \div 100, md % 100, hh, ms \div 100, ms % 100>>, l.rest)
-       ELSE EErr("Incomplete")
+       ELSE EErr("Overflow")       \* a number outside the range of its calendar field: no valid date-time may come out of it
 
 (* ------------------------------------------------------------------ dispatch by encoding record [e |-> name, w |-> bytes] *)
 Enc(e, v) == CASE e.e = "Le"  -> LeEnc(v, e.w)
